@@ -790,6 +790,27 @@ class EntryGraph:
             return self.make_call(t, args, (ctx.id, d['bb']))
         if k == 'mut':
             t = d['term']
+            ch = ctx.children.get(d['bb'])
+            if ch is not None and ch.closure_call != 'leafclosure' and not ch.closure_call and len(d.get('proj') or []) <= 1:
+                # a walked callee wrote through its `&mut` parameter (`state.step(item)`): the new value of the caller's variable is
+                # the value the callee's parameter designates when it returns
+                pl_ = d['argi'] + 1
+                outs = []
+                for bi_, blk_ in enumerate(ch.body['blocks']):
+                    if not blk_['cleanup'] and blk_['term']['t'] == 'return' and (not hasattr(self, 'node_states') or (ch.id, bi_) in self.node_states):
+                        outs.append(self.term_local(ch, bi_, len(blk_['st']), pl_, depth + 1))
+                uniq = []
+                for o_ in outs:
+                    if o_ not in uniq:
+                        uniq.append(o_)
+                if uniq:
+                    new = uniq[0] if len(uniq) == 1 else ('phi', tuple(uniq))
+                    pj = d.get('proj') or []
+                    if not pj:
+                        return new
+                    if isinstance(pj[0], dict) and 'f' in pj[0]:
+                        old = self.term_local(ctx, d['bb'], d['idx'], d['local'], depth)
+                        return ('upd', old, pj[0].get('n') or str(pj[0]['f']), new)
             old = self.term_local(ctx, d['bb'], d['idx'], d['local'], depth)
             args = tuple(self.term_operand(ctx, d['bb'], d['idx'], a, depth)
                          for i, a in enumerate(t['args']) if i != d['argi'])
@@ -1204,7 +1225,7 @@ class EntryGraph:
     @staticmethod
     def _payload_val(v):
         """abstract values that may be stored inside a tracked variant (no references to frames)"""
-        if v is not None and v[0] in ('b', 't', 's'):
+        if v is not None and v[0] in ('b', 't', 's', 'atom', 'bs', 'pv'):
             return v
         return None
 
